@@ -274,6 +274,12 @@ func (p *parser) optionalSemicolon() {
 
 func (p *parser) semicolon() {
 	if p.token != token.RIGHT_PARENTHESIS && p.token != token.RIGHT_BRACE {
+		if p.token == token.SEMICOLON {
+			// An explicit semicolon terminates the statement even after a line terminator
+			// (ES5 7.9.1: nothing is inserted when the token is allowed by the grammar).
+			p.next()
+			return
+		}
 		if p.implicitSemicolon {
 			p.implicitSemicolon = false
 			return
